@@ -1,5 +1,7 @@
 //! C18 contract tie: random struct-definition graphs through the real
-//! `aelys_air::layout::compute_layouts` / `layout_of` under catch_unwind.
+//! `aelys_air::layout::compute_layouts` / `layout_of` under catch_unwind (compute_layouts is the
+//! panicking wrapper of try_compute_layouts: the panic message is the LayoutError's Display text;
+//! the error-returning path is exercised through the driver pipeline by `--api-probe`).
 //! One line per case:  <Coq query>\t<Coq observation>\t<compact program>\t<class>
 //!
 //! compact syntax (also read back by `--corpus FILE`, one program per line, `#` comments):
@@ -125,6 +127,7 @@ impl<'a> Ps<'a> {
 fn classify_panic(msg: &str) -> &'static str {
     if msg.contains("has infinite size") || msg.contains("recursive struct cycle") { "ODiag" }
     else if msg.contains("referenced before its layout is computed") { "OUnresolved" }
+    else if msg.contains("is too large") { "OTooLarge" }
     else if msg.starts_with("attempt to") && msg.contains("overflow") { "OOverflow" }
     else if msg.contains("requires program context") { "ONeedsContext" }
     else { "OOther" }
@@ -158,8 +161,8 @@ fn overflow_checks_on() -> bool {
     guarded(|| { let x: u32 = std::hint::black_box(u32::MAX); std::hint::black_box(x + std::hint::black_box(1)) }).is_err()
 }
 
-fn emit(chk: bool, p: &Prog, class: &str) {
-    println!("QCompute {} {}\t{}\t{}\t{}", chk, coq_prog(p), run_compute(p), compact_prog(p), class);
+fn emit(_chk: bool, p: &Prog, class: &str) {
+    println!("QCompute {}\t{}\t{}\t{}", coq_prog(p), run_compute(p), compact_prog(p), class);
 }
 
 // ---- generators
@@ -244,13 +247,22 @@ fn main() {
     println!("#profile overflow_checks={}", chk);
 
     if flag("--api-probe") {
-        // how a by-value cycle surfaces through the public driver API (recorded for C07)
-        for (what, src) in [("self", "struct A { x: int, a: A }\n1"), ("mutual", "struct A { b: B }\nstruct B { a: A }\n1"), ("ok", "struct A { x: int }\n1")] {
-            let r = guarded(|| {
+        // how malformed struct definitions surface through the public driver API: must be an error value
+        let mut chain = String::from("struct S0 { x: int }\n");
+        for k in 1..30 { chain.push_str(&format!("struct S{} {{ a: S{}, b: S{} }}\n", k, k - 1, k - 1)); }
+        chain.push_str("struct T { s: S29, y: u8 }\n1");
+        let cases: Vec<(&str, String)> = vec![
+            ("self", "struct A { x: int, a: A }\n1".to_string()),
+            ("mutual", "struct A { b: B }\nstruct B { a: A }\n1".to_string()),
+            ("toolarge", chain),
+            ("ok", "struct A { x: int }\n1".to_string()),
+        ];
+        for (what, src) in cases {
+            let r = guarded(std::panic::AssertUnwindSafe(|| {
                 let mut pl = aelys_driver::pipeline::standard_pipeline();
-                pl.execute_str("probe", src).map(|_| ()).map_err(|e| format!("{e:?}"))
-            });
-            let o = match r { Ok(Ok(())) => "ok".to_string(), Ok(Err(e)) => format!("error: {}", e.chars().take(120).collect::<String>()), Err(m) => format!("PANIC: {m}") };
+                pl.execute_str("probe", &src).map(|_| ()).map_err(|e| format!("{e}"))
+            }));
+            let o = match r { Ok(Ok(())) => "ok".to_string(), Ok(Err(e)) => format!("error: {}", e.chars().take(160).collect::<String>()), Err(m) => format!("PANIC: {m}") };
             println!("#api-probe standard_pipeline.execute_str {what}: {}", o.replace('\n', " "));
         }
     }
@@ -270,7 +282,7 @@ fn main() {
     for p in ["I8", "I16", "I32", "I64", "U8", "U16", "U32", "U64", "F32", "F64", "Bool", "Str", "FnPtr", "Param", "Void"] {
         let t = T::P(p);
         let o = match guarded(|| layout_of(&to_air(&t))) { Ok(l) => format!("OSizeAlign {} {}", l.size, l.align), Err(m) => classify_panic(&m).to_string() };
-        println!("QLayoutOf {} ({})\t{}\tT:{}\tlayout_of", chk, coq_ty(&t), o, compact_ty(&t));
+        println!("QLayoutOf ({})\t{}\tT:{}\tlayout_of", coq_ty(&t), o, compact_ty(&t));
     }
     for _ in 0..(cases / 4).max(8) {
         let names = [1u64, 2, 3];
@@ -278,7 +290,7 @@ fn main() {
         let mut t = gen_ty(&mut rng, if with_structs { &names } else { &[] }, &names, 0);
         if rng.chance(1, 10) { t = T::Arr(Box::new(t), *rng.pick(&[1u64 << 29, 1 << 30, 1 << 31, 1 << 32, (1 << 32) + 1, 4294967295, 1 << 33])); }
         let o = match guarded(|| layout_of(&to_air(&t))) { Ok(l) => format!("OSizeAlign {} {}", l.size, l.align), Err(m) => classify_panic(&m).to_string() };
-        println!("QLayoutOf {} ({})\t{}\tT:{}\tlayout_of", chk, coq_ty(&t), o, compact_ty(&t));
+        println!("QLayoutOf ({})\t{}\tT:{}\tlayout_of", coq_ty(&t), o, compact_ty(&t));
     }
 
     for _ in 0..cases {
